@@ -147,9 +147,14 @@ def gen_loop_contracts(g: Group, gb: str, wd: str):
     """Resolve source-level names in the loop-contract spec to CBMC's mangled
     symbols and write the JSON side file.  Raises Infra on any mismatch."""
     rc, out, err, _ = run(["goto-instrument", "--show-loops", gb], 120)
+    # loop ids are numbered by back-edge position (inner loops first); the spec lists loops in
+    # textual order of their heads, so sort by source line
     loops_per_fn: Dict[str, List[str]] = {}
-    for m in re.finditer(r"^Loop (\S+?)\.(\d+):", out, re.M):
-        loops_per_fn.setdefault(m.group(1), []).append(m.group(2))
+    tmp: Dict[str, list] = {}
+    for m in re.finditer(r"^Loop (\S+?)\.(\d+):\n\s+file \S+ line (\d+)", out, re.M):
+        tmp.setdefault(m.group(1), []).append((int(m.group(3)), int(m.group(2))))
+    for fn, lst in tmp.items():
+        loops_per_fn[fn] = [str(i) for (_, i) in sorted(lst)]
     rc, sym, err, _ = run(["goto-instrument", "--show-symbol-table", gb], 120)
     symbols = re.findall(r"^Symbol\.*: (\S+)", sym, re.M)
     functions = {}
@@ -171,11 +176,12 @@ def gen_loop_contracts(g: Group, gb: str, wd: str):
                 if want is not None:
                     cands = [c for c in cands if c == fn + "::" + want]
                 if len(cands) != 1:
-                    raise Infra(f"loop contract for {fn}.{idx}: local '{nm}' resolves to {cands}")
+                    raise Infra(f"loop contract for {fn} loop #{idx}: local '{nm}' resolves to {cands}")
                 smap.append(f"{nm},{cands[0]}")
-            e = {"loop_id": str(idx),
-                 "invariants": " && ".join("(" + i + ")" for i in lc["invariants"]),
-                 "symbol_map": ";".join(smap)}
+            e = {"loop_id": have[idx],
+                 "invariants": " && ".join("(" + i + ")" for i in lc["invariants"])}
+            if smap:
+                e["symbol_map"] = ";".join(smap)
             if lc.get("assigns"):
                 e["assigns"] = ",".join(lc["assigns"])
             if lc.get("decreases"):
@@ -293,15 +299,50 @@ def run_group(g: Group, prop: str, keep_trace=True) -> Result:
                 entry["status"] = st
                 if keep_trace and "trace" in r:
                     entry["trace"] = r["trace"]
-                if is_aux(desc) and not (g.invariant_is_property and INV_STEP_RE.search(desc)):
+                anon_loop = (desc == "assertion" and entry["function"].endswith("_wrapped_for_contract_checking") and not entry["file"])
+                if anon_loop:
+                    # loop-contract obligation (base / step / assigns inclusion) of a loop whose head carries no source location (for(;;))
+                    entry["description"] = desc = ("Check loop contract (invariant base/step or assigns inclusion) for a loop without source location in "
+                                                   + entry["function"].replace("_wrapped_for_contract_checking", ""))
+                if (anon_loop or is_aux(desc)) and not (g.invariant_is_property and INV_STEP_RE.search(desc)):
                     res.aux_failed.append(entry)
                 else:
                     res.failed.append(entry)
         res.obligations = n
         res.discharged = ok
+        # Loop-invariant conjuncts that CARRY a property are written "(vp_tag_<Cxx>_<name> != 0 || ...)" with the
+        # tag constant 0; cbmc reports each top-level conjunct of an invariant as its own obligation, and
+        # --show-properties gives its expression.  A failed step obligation whose expression mentions a tag is a
+        # failure of that property's obligation, not an auxiliary one.
+        if res.aux_failed and g.loops:
+            rc2, out2, err2, _ = run(["cbmc", cur, "--drop-unused-functions", "--show-properties", "--json-ui"], 300, mem_gb=g.mem_gb, cwd=wd)
+            exprs = {}
+            try:
+                for item in json.loads(out2):
+                    for pr in item.get("properties", []):
+                        exprs[pr["name"]] = pr.get("expression", "")
+            except Exception:
+                pass
+            keep = []
+            for e in res.aux_failed:
+                ex = exprs.get(e["name"], "")
+                mt = re.search(r"vp_tag_(C\d\d)_(\w+)", ex)
+                is_base = ex.startswith("__init_invariant") or e["description"].startswith("Check invariant before entry")
+                if mt and not is_base:
+                    tagp = mt.group(1)
+                    if g.tags is not None and tagp not in g.tags:
+                        continue
+                    e["description"] = f"{tagp}: loop invariant clause '{mt.group(2)}' is preserved by every iteration [{ex[:200]}]"
+                    res.failed.append(e)
+                else:
+                    if ex and not e.get("file"):
+                        e["description"] += " [" + ex[:160] + "]"
+                    keep.append(e)
+            res.aux_failed = keep
         if g.loops:
             want = sum(1 for fn in g.loops.values() for lc in fn if lc is not None)
-            steps = sum(1 for r in results if INV_STEP_RE.search(r.get("description", "")))
+            steps = sum(1 for r in results if INV_STEP_RE.search(r.get("description", "")) or
+                        (r.get("description") == "assertion" and r.get("sourceLocation", {}).get("function", "").endswith("_wrapped_for_contract_checking")))
             if steps < want:
                 raise Infra(f"only {steps} loop_invariant_step obligations for {want} loop contracts (contract silently dropped)")
         if res.failed:
